@@ -282,6 +282,10 @@ type listedPackage struct {
 	SFiles          []string // all .s (asm) files to build
 	Imports         []string
 
+	// Match holds the command-line patterns which matched this package.
+	// It is only needed while listing packages, hence not serialized.
+	Match []string `msg:"-"`
+
 	Error *packageError // to report package loading errors to the user
 
 	// The fields below are not part of 'go list', but are still reused
@@ -459,6 +463,8 @@ func appendListedPackages(packages []string, mainBuild bool) error {
 	// `go list` cannot mix .go file arguments with package paths, so the rare
 	// file-argument build lists the linknamed packages separately, below.
 	fileMode := mainBuild && len(packages) > 0 && strings.HasSuffix(packages[0], ".go")
+	// The patterns given by the user, when we list more packages than those.
+	var userPatterns []string
 	if mainBuild && !fileMode {
 		if len(packages) == 0 {
 			// With no arguments the build targets the current directory; make
@@ -468,7 +474,8 @@ func appendListedPackages(packages []string, mainBuild bool) error {
 		// Fold in the linknamed packages so each compile subprocess finds them
 		// in the shared cache instead of spawning its own `go list`. `go list`
 		// dedups them against the deps and `-mod` flags are harmless for std.
-		packages = append(packages, linknamedToList()...)
+		userPatterns = packages
+		packages = append(slices.Clip(packages), linknamedToList()...)
 	}
 
 	args = append(args, packages...)
@@ -493,6 +500,7 @@ func appendListedPackages(packages []string, mainBuild bool) error {
 	dec := json.NewDecoder(stdout)
 	var pkgErrors strings.Builder
 	anyToObfuscate := false
+	var userPkgs, toObfuscate []*listedPackage // only used with userPatterns
 	for dec.More() {
 		var pkg listedPackage
 		if err := dec.Decode(&pkg); err != nil {
@@ -568,9 +576,13 @@ func appendListedPackages(packages []string, mainBuild bool) error {
 
 			pkg.ToObfuscate = true
 			anyToObfuscate = true
+			toObfuscate = append(toObfuscate, &pkg)
 			if len(pkg.GarbleActionID) == 0 {
 				return fmt.Errorf("package %q to be obfuscated lacks build id?", pkg.ImportPath)
 			}
+		}
+		if slices.ContainsFunc(pkg.Match, func(pattern string) bool { return slices.Contains(userPatterns, pattern) }) {
+			userPkgs = append(userPkgs, &pkg)
 		}
 
 		sharedCache.ListedPackages.set(pkg.ImportPath, &pkg)
@@ -581,6 +593,19 @@ func appendListedPackages(packages []string, mainBuild bool) error {
 	}
 	if pkgErrors.Len() > 0 {
 		return errors.New(pkgErrors.String())
+	}
+
+	if userPatterns != nil {
+		// The packages we folded in are not part of the build unless it depends on them,
+		// so a GOGARBLE which only matches those does not match anything being built.
+		anyToObfuscate = slices.ContainsFunc(toObfuscate, func(pkg *listedPackage) bool {
+			if !runtimeAndLinknamed[pkg.ImportPath] {
+				return true // listed only because the build needs it
+			}
+			return slices.ContainsFunc(userPkgs, func(userPkg *listedPackage) bool {
+				return userPkg == pkg || userPkg.hasDep(pkg.ImportPath)
+			})
+		})
 	}
 
 	// Only the top-level build must match packages to obfuscate; the later
